@@ -92,7 +92,9 @@ PROPS = {
              '(needs the state after a panic, which neither verifier has): native execution of the real code, every layout x call x argument class for N <= 3/4, panic caught, buffer compared; labelled bounded.'),
     'C19': P('proof', True,
              'Verus proves all index arithmetic (add_mod, sub_mod and every caller) free of overflow/underflow/division by zero for every N <= usize::MAX, every start < N and every T '
-             '(layout-agnostic, so zero-sized types are included). Destructor counts for a zero-sized type are checked by Kani per capacity.'),
+             '(layout-agnostic, so zero-sized types are included). Destructor counts for a zero-sized type are checked by Kani per capacity. '
+             'BOUNDED STAND-IN for extreme capacities in the functions Verus cannot reach (drain, ranges, iterators; CBMC cannot represent arrays of usize::MAX elements): native execution with a zero-sized element, '
+             'N = usize::MAX and N = usize::MAX/2+2, front at 0 / N/2 / N-3 / N-2 / N-1, up to 3 elements, 14 operations x 6 argument classes, overflow checks on; labelled bounded.'),
     'C20': P('proof', True,
              'Verus frame clauses: each O(1) operation changes at most the written slot(s) of the backing array and moves start by at most one; remove(i) changes only slots of '
              'positions >= i; make_contiguous changes nothing when the occupied range does not wrap. Kani counts relocated surviving tokens per capacity.'),
